@@ -14,7 +14,7 @@ def main():
     tier = a.tier if a.tier in ("quick", "thorough") else "quick"
     mod = importlib.import_module("props.%s" % a.pid.lower())
     chk = vlib.Check(a.pid, tier, seed)
-    ok, out = vlib.build_harness()
+    ok, out = vlib.build_harness(getattr(mod, 'HARNESS_BINS', [a.pid.lower()]))
     if not ok:
         chk.write_log("cargo_build.log", out)
         chk.broken.append("harness build against /repo failed: " + vlib.last_error(out))
